@@ -1,7 +1,7 @@
 (* Properties/C01.v — ancestor sets are the exact transitive closure (C01).
    Only statements; every proof is `exact <lemma>`. *)
 From Coq Require Import Relations.
-From HpoV Require Import Gen.Consts Model.Base Model.Group Model.Onto Run.World Run.C01 Proofs.C01P Proofs.ClosureP Proofs.AcyclicP Proofs.DistP Proofs.QgoodP Model.Script.
+From HpoV Require Import Gen.Consts Model.Base Model.Group Model.Onto Run.World Run.C01 Proofs.C01P Proofs.ClosureP Proofs.AcyclicP Proofs.DistP Proofs.QgoodP Model.Script Proofs.RoundTripP Proofs.AllPathsP.
 
 (* An observation of an ontology (per term: id, parents, children, all ancestors, as the read
    API reports them) that passes the executable statement [closure_ok] — which the check
@@ -73,6 +73,13 @@ Proof. exact connect_all_acyclic. Qed.
 Theorem C01_builder_ontologies_exact : forall icf s codes o, run_script icf s = Ok (codes, Ok o) -> qgood o.
 Proof. exact run_script_qgood. Qed.
 
+(* EACH CONSTRUCTION PATH: whatever public constructor produced the ontology — the Builder API, the JAX
+   text loaders (closed hp.obo), from_bytes on a well-formed file, sub_ontology of any such ontology,
+   nested to any depth ([constructed], Proofs/AllPathsP.v) — every ancestor cache is exactly the
+   transitive closure, children are the inverse of parents, and the graph is acyclic *)
+Theorem C01_every_constructed_ontology : forall icf o, constructed icf o -> src_ok o /\ acyclic (o_arena o).
+Proof. exact constructed_structure. Qed.
+
 Print Assumptions C01_closure_exact.
 Print Assumptions C01_model_cache_is_transitive_closure.
 Print Assumptions C01_model_create_cache.
@@ -85,3 +92,4 @@ Print Assumptions C01_children_inverse.
 Print Assumptions C01_matrix_is_membership.
 Print Assumptions C01_connect_returns_only_on_acyclic_graphs.
 Print Assumptions C01_builder_ontologies_exact.
+Print Assumptions C01_every_constructed_ontology.
